@@ -15,10 +15,13 @@ CHECKS = {
         category="exploration",
         technique="deterministic simulation: seeded histories of public IR-mutation calls with injected failing calls and listener-callback faults, whole-universe invariant after every step, ddmin-minimised replay",
         text=(
-            "Seeded search over histories (8-80 calls, ~60 call kinds incl. Rewriter/PatternRewriter/clone) on generated "
+            "Seeded search over histories (8-80 calls, quick; up to 240, thorough; ~70 call kinds incl. Rewriter / Builder / "
+            "ImplicitBuilder / PatternRewriter / clone, tuple and single-pass generator arguments) on generated "
             "multi-tree IR; after every call the whole universe is walked and the C01 sentence is checked literally "
             "(forward/backward lists, parent pointers, exactly-once membership, use lists == operand/successor positions, "
-            "arg/result indices). Sampled, not exhaustive: a clean batch is evidence, not proof."
+            "arg/result indices); on every third call the public read API (iteration, reverse iteration, indexing, "
+            "first/last, next/prev, parent accessors, uses, predecessors, walk orders) is compared with that walk. "
+            "Sampled, not exhaustive: a clean batch is evidence, not proof."
         ),
         note=(
             "Trusted: the harness's own invariant walker and its bookkeeping of which objects a successful erase destroyed. "
@@ -33,10 +36,13 @@ CHECKS = {
         technique="deterministic simulation: seeded clone-and-edit histories, independent canonical form as reference model, footprint-based isolation invariant after every later step",
         text=(
             "Same simulator as C01 with every clone entry point as history steps (clone_into into empty and populated "
-            "destinations at every index, fresh or shared mappers). Oracle at the clone: independent canonical form of the "
-            "copy equals that of the source part, outside references are the same objects, source and pre-existing "
-            "destination blocks bit-identical, no shared objects/dicts; afterwards every tree outside a call's footprint "
-            "stays bit-identical; ModulePass.apply_to_clone leaves the original untouched. Sampled."
+            "destinations at every index; no, fresh, pre-seeded or caller-kept mapper dictionaries; clone_operands / "
+            "clone_name_hints options). Oracle at the clone: independent canonical form of the copy equals that of the "
+            "source part (outside references renamed as the caller's mappers ask), source and pre-existing destination "
+            "blocks bit-identical, no shared objects/dicts, mappers send every inside value/block to its copy; afterwards "
+            "every tree outside a call's footprint stays bit-identical; ModulePass.apply_to_clone leaves the original "
+            "untouched - with a harness pass inside histories and, in one run of eight, with a registered pass (132 of "
+            "133) on a filecheck corpus module. Sampled."
         ),
         note=(
             "Trusted: harness canonical form / snapshot (share no code with xDSL clone, printer or is_structurally_equivalent). "
@@ -48,12 +54,15 @@ CHECKS = {
     "C07": dict(
         engine="streamsim",
         category="fault_enumeration",
-        technique="deterministic simulation of a damaged input stream: enumerated single faults (EOF / lost byte at every offset) plus seeded multi-fault sequences, deterministic step clock and CPU-time watchdog",
+        technique="deterministic simulation of a damaged input stream: enumerated single faults (EOF / lost byte at every offset; stratified numeric and type tweaks) plus seeded multi-fault sequences of 17 kinds and generated stress texts, deterministic step clock and CPU-time watchdog",
         text=(
             "The parser reads a simulated file whose stored bytes suffer truncation, lost/flipped/duplicated/reordered/torn spans. "
             "Single faults (EOF@k, drop@k) are enumerated over a seed-selected slice (quick) or all offsets (thorough) of the "
-            "generic-form corpus; multi-fault sequences are sampled. Outcome must be IR or ParseError/VerifyException; "
-            "time is bounded by a replayable call-count clock proportional to input length plus a CPU watchdog for regex work."
+            "generic-form corpus, plus one representative per (token kind, offset, neighbour kinds) stratum and per numeric / "
+            "type-spelling stratum; multi-fault sequences (17 kinds), generated token sequences and generated stress texts "
+            "(alias DAGs, nesting, long lists, affine expressions, typed literals) are sampled. Outcome must be IR or "
+            "ParseError/VerifyException; time is bounded by a replayable call-count clock proportional to input length plus "
+            "a CPU watchdog for regex work. A violation that needs process history replays as the same input executed up to 4 times."
         ),
         note=(
             "Containment (no internal error) is judged on the generic-form corpus with a builtin-only context (the anchored files); "
@@ -80,9 +89,10 @@ CHECKS = {
         category="exploration",
         technique="deterministic simulation (sequential reference-model core): seeded operation histories checked call by call against executable abstract models; no fault or schedule dimension exists for these containers",
         text=(
-            "Seeded histories of <=60 calls on Worklist, IntDisjointSet, DisjointSet and trees of ScopedDicts; every return "
-            "value and exception is compared with a trivial model (list without duplicates, partition with known "
-            "representatives, chain of dicts). Exhaustive bounded enumeration is deliberately not done (that would be model checking)."
+            "Seeded histories of <=60 calls on Worklist, IntDisjointSet, DisjointSet (incl. str()) and trees of ScopedDicts "
+            "(incl. initial local scopes and the local_scope view); every return value and exception is compared with a "
+            "trivial model (list without duplicates, partition with known representatives, chain of dicts). Exhaustive "
+            "bounded enumeration is deliberately not done (that would be model checking)."
         ),
         note="Trusted: the three models. A class representative is assumed stable between unions.",
         design="3.5",
@@ -90,12 +100,14 @@ CHECKS = {
     "C25": dict(
         engine="solversim",
         category="exploration",
-        technique="deterministic simulation: real dataflow solver with its FIFO replaced by a seeded scheduler (any pop order, duplicate deliveries, late boundary events, analysis load order), result compared with a reference least fixpoint",
+        technique="deterministic simulation: real dataflow solver with its FIFO replaced by a seeded scheduler (any pop order, duplicate deliveries, late boundary and block-executable events, analysis load order, solver reuse), result compared with a reference least fixpoint",
         text=(
             "DataFlowSolver/LivenessAnalysis/DeadCodeAnalysis run unmodified except that solver._worklist is a seeded "
             "scheduler whose pending items are canonically ordered (removing the address-dependent order of the shipped "
-            "code). For every value the lattice must equal a reference reachability fixpoint, hence be schedule independent; "
-            "pops are bounded. Sampled schedules."
+            "code); one solver analyses 1-3 roots (builtin.module or func.func with func.return) in sequence; boundary "
+            "values and block-executable events may arrive late, items may be delivered twice; ops include instance-dependent "
+            "effects (test.allocatable). For every value the lattice must equal a reference reachability fixpoint over the "
+            "ops of executable blocks, hence be schedule independent; pops are bounded. Sampled schedules."
         ),
         note="Trusted: reference fixpoint (20 lines) and the removability predicate re-implemented from trait definitions. Enqueue loss is not injected.",
         design="3.6",
